@@ -96,6 +96,41 @@ theorem poolLoop_acquire_ok {w : World} {p : Pid} {pl : Nat} {x : Pool} (hi : Po
     rw [h1] at hr
     cases hr
 
+/-- `AcquireRun p pl rem ini gained sig`: a `cmb_resourcepool_acquire` by `p`, suspended (or starting) with outstanding
+    claim `rem`, runs to its return with signal `sig` through some number of further passes of the acquire loop, which
+    together hand `gained` units to the caller (measured on what the caller holds before and after each pass; between
+    passes anything may happen, including the caller being preempted).  A pass that suspends stores the claim reduced by
+    what it took (`poolLoop_partial`), which is what the next pass is started with. -/
+inductive AcquireRun (p : Pid) (pl : Nat) : Nat → Nat → Nat → Int → Prop
+  | last {w : World} {x : Pool} {rem ini : Nat} {sig : Int} {extra : String} (hi : PoolInv w) (hp : p < w.procs.size)
+      (hx : w.pools[pl]? = some x) (h : (poolLoop w p pl rem ini false).2 = .ret sig extra) :
+      AcquireRun p pl rem ini (heldOf (poolLoop w p pl rem ini false).1 pl p - heldOf w pl p) sig
+  | wait {w : World} {x : Pool} {rem ini m : Nat} {sig : Int} (hi : PoolInv w) (hp : p < w.procs.size)
+      (hx : w.pools[pl]? = some x) (hav : ¬ x.cap - x.inUse ≥ rem)
+      (rest : AcquireRun p pl (rem - (x.cap - x.inUse)) ini m sig) :
+      AcquireRun p pl rem ini (heldOf (poolLoop w p pl rem ini false).1 pl p - heldOf w pl p + m) sig
+  | intr {rem ini : Nat} {sig : Int} (hs : sig ≠ sigSuccess) : AcquireRun p pl rem ini 0 sig
+
+/-- **acquire_ok** for a whole call: the passes never hand out more than the claim, and a call that returns success has
+    handed out exactly the claim `n` -/
+theorem AcquireRun.exact {p : Pid} {pl rem ini m : Nat} {sig : Int} (h : AcquireRun p pl rem ini m sig) (hrem : 0 < rem) :
+    m ≤ rem ∧ (sig = sigSuccess → m = rem) := by
+  induction h with
+  | @last w x rem ini sig extra hi hp hx h =>
+    obtain ⟨hs, hh, _⟩ := poolLoop_acquire_ok hi hp hx rem ini hrem h
+    rw [hh]
+    exact ⟨by omega, fun _ => by omega⟩
+  | @wait w x rem ini m sig hi hp hx hav rest ih =>
+    obtain ⟨w1, hblk, hh, _⟩ := poolLoop_partial hi hp hx rem ini hav
+    have hv : heldOf (poolLoop w p pl rem ini false).1 pl p = heldOf w pl p + (x.cap - x.inUse) := by
+      rw [hblk, heldOf_viewSame (ViewSame.of_fp (block_fp _ _ _) rfl rfl)]; exact hh
+    rw [hv]
+    obtain ⟨e1, e2⟩ := ih (by omega)
+    refine ⟨by omega, fun hs => ?_⟩
+    have := e2 hs
+    omega
+  | intr hs => exact ⟨Nat.zero_le _, fun e => absurd e hs⟩
+
 /-- **acquire_intr**: what the rollback after an interrupted acquire / preempt leaves: the caller holds what it held
     before the call (`ini`) — or less, if a preempting process took its units in this same instant (then nothing is
     put back); with `ini = 0` it holds nothing.  The amount in use goes down by exactly what the caller gave back. -/
